@@ -4,15 +4,14 @@ from harness.oracles import all as ALL
 
 ID = 'C01'
 UNITS = ['event_metrics', 'transcription_scores', 'multipitch_metrics', 'melody_metrics', 'seg_cluster_q', 'hier_gauc', 'weighted_accuracy', 'key_score', 'pattern_scores', 'alignment_scores', 'tempo_detection', 'beat_q']
-TRANSLATORS = []
+TRANSLATORS = ['scalarfuncs']
 NOT_COVERED = 'Partial: the information-gain entropy/log2 step, AMI <= 1 and the alignment "perceptual" metric are not theorems; they are covered by the oracle only. MI >= 0 and the NMI / NCE / V-measure ranges are Reals theorems on the exact contingency table.'
 ASSUMPTIONS = ['exact-arithmetic lattices for the correspondence (DESIGN.md section 2.1); NumPy/SciPy primitives as modelled per module']
 
 oracle_search = propgen.budgeted([ALL.for_property(ID)])
 
 
-def oracle_at(unit, case, impl):
-    return None
+oracle_at = propgen.point_oracle(ID)      # the property's point checks at and around the mismatching input (harness/oracles/at_point.py)
 
 
 def diagnose(b):
